@@ -293,10 +293,18 @@ def task_composite(ctx, n):
 
 
 def tasks(tier):
+    from .. import depth
+    return _tasks(tier) + [("little-stack", depth.task, dict(prop=PROPERTY))]
+
+
+def _tasks(tier):
     if tier == "quick":
         return [("composite-%d" % k, task_composite, dict(n=500)) for k in range(5)]
     return [("composite-%d" % k, task_composite, dict(n=10000)) for k in range(16)]
 
 
 def replay(ctx, case):
+    if isinstance(case, dict) and case.get("kind") == "little-stack":
+        from .. import depth
+        return depth.check(ctx, case)
     check_composite(ctx, case)
